@@ -11,7 +11,7 @@ code is now analysed in the context of each caller); public functions and functi
 The result is still plain MIR facts (same JSON shape), so every engine works on it unchanged.  The original bodies stay
 available as crate.raw_bodies.
 """
-import re, copy
+import re, copy, os
 
 MAX_DEPTH = 4
 MAX_BLOCKS = 4000
@@ -599,7 +599,7 @@ class Normal:
             else:
                 d2 = inline_body(b.d, self.absorbed, raw_by_path) if self.absorbed else b.d
                 d3 = thread_flags(d2)
-                if not b.path.startswith(SPLIT_EXCLUDE) and '::_serde::' not in b.path:
+                if not b.path.startswith(SPLIT_EXCLUDE) and '::_serde::' not in b.path and not os.environ.get('ZL_NOSPLIT'):
                     import splitflags
                     d3 = splitflags.split_flags(d3, getattr(crate, 'adts', None))
                 nb = b if d3 is b.d else Body(d3, crate)
